@@ -111,7 +111,7 @@ func init() {
 		}
 		spec := &mc.Spec{
 			Level: "exploration",
-			Rule: "family 0 (real cgroup v1 hierarchy): every operation sequence of ≤ maxOps over {New(prefix) with controller sets {memory} / {cpu,memory,pids}, h.New(child), h.Random(pattern) with the random source scripted over a 2-value domain, h.Nest(name) on a group that holds a helper process, OpenExisting, AddProc(helper), SetMemoryLimit, SetProcLimit, SetCPUBandwidth, Destroy(any live handle)}; state = directories below the test prefix, the helper's membership, the limit files; reference tree with a created-by flag per handle. " +
+			Rule: "family 0 (real cgroup v1 hierarchy): every operation sequence of ≤ maxOps over {New(prefix) with controller sets {memory} / {cpu,memory,pids}, h.New(child), h.Random(pattern) with the random source scripted over a 2-value domain, h.Nest(name) on a group that holds a helper process, OpenExisting, AddProc(helper), AddProc(kernel thread, helper) — a nil result must mean every given process was moved —, SetMemoryLimit, SetProcLimit, SetCPUBandwidth, Destroy(any live handle)}; state = directories below the test prefix, the helper's membership, the limit files; reference tree with a created-by flag per handle. " +
 				"family 3 (real cgroup v2 hierarchy, bind-mounted on /sys/fs/cgroup in a private mount namespace of a helper process; no controllers available): the same sequences one operation shorter, without limit operations. family 1 (schedules): two creators working on the same name (h.New+h.New, h.Random+h.Random with the same scripted name, h.New+Destroy of the other's group, top-level New+New of one prefix, top-level New + New-then-Destroy), all interleavings of their instrumented file-system calls; family 4: the same three scenarios with all their interleavings on the real cgroup v2 hierarchy (enumerated inside the helper's mount namespace). family 2 (statistics files): every reading function on fake group directories whose files hold {0, 1, 2^32, 2^53, extra fields before / after, no trailing newline, missing file}, v1 and v2 layouts. " +
 				"non-trivial: the sequence creates at least two handles or destroys one; distinct = (sequence or schedule, resulting tree)",
 			Bound:       map[string]any{"max_ops": maxOps, "v2_scope": "cgroup v2 controller files (memory.max, pids.max, memory.peak, pids.peak) cannot be exercised against this kernel (controllers are bound to v1); the v2 reading and writing functions are checked on fake directories only"},
@@ -150,7 +150,7 @@ func init() {
 
 type c20step struct{ op, h, rnd int }
 
-var c20opNames = []string{"New(prefix,{memory})", "New(prefix,{cpu,cpuset,memory,pids})", "h.New(child)", "h.Random(r*)", "h.Nest(n)", "OpenExisting(prefix)", "AddProc(helper)", "SetMemoryLimit", "SetProcLimit", "SetCPUBandwidth", "Destroy", "h.New(planted) [sub-group pre-existing under the memory hierarchy only]", "New(prefix,{memory}) that must fail [v2: controller cannot be enabled; v1: final name with a newline below the prefix]"}
+var c20opNames = []string{"New(prefix,{memory})", "New(prefix,{cpu,cpuset,memory,pids})", "h.New(child)", "h.Random(r*)", "h.Nest(n)", "OpenExisting(prefix)", "AddProc(helper)", "SetMemoryLimit", "SetProcLimit", "SetCPUBandwidth", "Destroy", "h.New(planted) [sub-group pre-existing under the memory hierarchy only]", "New(prefix,{memory}) that must fail [v2: controller cannot be enabled; v1: final name with a newline below the prefix]", "AddProc(kernel thread 2, helper) [the kernel refuses the first pid]"}
 
 // c20sequenceChoices makes the choices of one operation sequence; ok=false: the sequence is not well formed
 func c20sequenceChoices(x *mc.X, maxOps int) (steps []c20step, ok bool) {
@@ -177,7 +177,7 @@ func c20sequenceChoices(x *mc.X, maxOps int) (steps []c20step, ok bool) {
 }
 
 func c20sequence(x *mc.X, maxOps int) {
-	opNames := []string{"New(prefix,{memory})", "New(prefix,{cpu,cpuset,memory,pids})", "h.New(child)", "h.Random(r*)", "h.Nest(n)", "OpenExisting(prefix)", "AddProc(helper)", "SetMemoryLimit", "SetProcLimit", "SetCPUBandwidth", "Destroy", "h.New(planted) [sub-group pre-existing under the memory hierarchy only]", "New(prefix,{memory}) that must fail [v2: controller cannot be enabled; v1: final name with a newline below the prefix]"}
+	opNames := []string{"New(prefix,{memory})", "New(prefix,{cpu,cpuset,memory,pids})", "h.New(child)", "h.Random(r*)", "h.Nest(n)", "OpenExisting(prefix)", "AddProc(helper)", "SetMemoryLimit", "SetProcLimit", "SetCPUBandwidth", "Destroy", "h.New(planted) [sub-group pre-existing under the memory hierarchy only]", "New(prefix,{memory}) that must fail [v2: controller cannot be enabled; v1: final name with a newline below the prefix]", "AddProc(kernel thread 2, helper) [the kernel refuses the first pid]"}
 	steps, ok := c20sequenceChoices(x, maxOps)
 	if !ok {
 		x.Outcome("n/a:no-handle-yet")
@@ -367,10 +367,11 @@ func c20sequence(x *mc.X, maxOps int) {
 				}
 			case 4:
 				// Nest moves the processes of the parent group into the new child: put the helper into the parent first
-				parent.cg.AddProc(helper.Process.Pid)
+				inParent := parent.cg.AddProc(helper.Process.Pid) == nil
 				cg, err = parent.cg.Nest("n")
 				rel = parent.rel + "/n"
-				if err == nil {
+				// (a parent group that another handle — its creator — has destroyed meanwhile holds no process: nothing to move)
+				if err == nil && inParent {
 					for _, hp := range cgroup.VerifPaths(cg) {
 						if got := c20memberDir(helper.Process.Pid, hp); got != hp {
 							x.Failf("C20/seq/nest-did-not-move", "%s: after Nest the helper is in %s, expected %s", ctx(i), got, hp)
@@ -387,8 +388,14 @@ func c20sequence(x *mc.X, maxOps int) {
 			other := exec.Command("/bin/sleep", "1000")
 			other.Start()
 			beforeOther := c20membership(other.Process.Pid)
+			groupThere := true
+			for _, hp := range cgroup.VerifPaths(h.cg) {
+				if !dirExists(hp) {
+					groupThere = false // removed by the Destroy of the handle that created it: this handle stands for nothing now
+				}
+			}
 			err := h.cg.AddProc(helper.Process.Pid)
-			if err != nil {
+			if err != nil && groupThere {
 				// a group this handle stands for accepts a live process (a cpuset group, for one, only once its cpus/mems were filled in)
 				x.Failf("C20/seq/addproc-failed", "%s: AddProc of a live process failed: %v (membership now %v)", ctx(i), err, c20membership(helper.Process.Pid))
 			}
@@ -431,6 +438,27 @@ func c20sequence(x *mc.X, maxOps int) {
 			b, rerr := os.ReadFile("/sys/fs/cgroup/" + file)
 			if has && err == nil && rerr == nil && strings.TrimSpace(string(b)) != want {
 				x.Failf("C20/seq/limit-not-in-force", "%s: limit file %s holds %q after a successful set, expected %s", ctx(i), file, strings.TrimSpace(string(b)), want)
+			}
+		case 13:
+			h := handles[s.h]
+			if h.dead {
+				continue
+			}
+			groupThere := true
+			for _, hp := range cgroup.VerifPaths(h.cg) {
+				if !dirExists(hp) {
+					groupThere = false
+				}
+			}
+			// several pids in one call, the kernel refuses one that is not the last (kthreadd cannot be moved): a nil
+			// result says every process that was given is in the group now
+			err := h.cg.AddProc(2, helper.Process.Pid)
+			if err == nil && groupThere {
+				for _, hp := range cgroup.VerifPaths(h.cg) {
+					if got := c20memberDir(2, hp); got != hp {
+						x.Failf("C20/seq/addproc-nil-but-a-process-not-moved", "%s: AddProc(2, helper) returned nil but process 2 is in %s, not in %s", ctx(i), got, hp)
+					}
+				}
 			}
 		case 10:
 			h := handles[s.h]
@@ -522,6 +550,7 @@ func c20schedOnV2(x *mc.X) {
 	if x.Dry() {
 		return
 	}
+	x.NeedsTime(15 * time.Minute) // one execution = a whole schedule search in the helper (thousands of schedules)
 	self, _ := os.Executable()
 	cmd := exec.Command("unshare", "--mount", "--propagation", "private", "sh", "-c",
 		"mount --bind /sys/fs/cgroup/unified /sys/fs/cgroup && exec \"$0\" c20v2sched \"$1\"", self, fmt.Sprint(scen))
